@@ -56,4 +56,12 @@ def afterCalls : RngState → List Call → RngState
   | s, [] => s
   | s, c :: cs => afterCalls (step c s).2 cs
 
+/-! ### memo caches of the floating-point samplers -/
+
+/-- the states a sampler's function-static cache can be in: the static initialisers, or what its memo prologue leaves after
+    any number of calls with valid arguments -/
+inductive MemoReach {M F : Type} (init : M) (pro : F → M → M) (valid : F → Prop) : M → Prop where
+  | init : MemoReach init pro valid init
+  | call (x : F) (m : M) : valid x → MemoReach init pro valid m → MemoReach init pro valid (pro x m)
+
 end CimbaModel.Rng
